@@ -75,7 +75,7 @@ Proof. intros E H1 H2. unfold getop in *. rewrite E in H2. congruence. Qed.
 
 Theorem step_fsext s e : fsext s (step s e).
 Proof.
-  destruct e as [k tmo| | | |how|r|o|o|o|dt|k tmo|o]; unfold step.
+  destruct e as [k tmo| | | |how|r|o|o|o|dt|o|k tmo|o]; unfold step.
   - (* Start *) destruct (next_msgid (last s) (inuse s)); try apply fsext_refl.
     destruct (is_running s).
     + match goal with |- fsext ?s0 (set opq _ ?x) => apply (fsext_set s0 x); [|reflexivity] end.
@@ -126,6 +126,7 @@ Proof.
     destruct (o_status c) eqn:Es; try apply fsext_refl; try destruct (fix20 (fx s)); destruct (is_running s); repeat fstrip.
     all: intros c0 H0; rewrite (Hs _ c0 eq_refl H0); apply fext_live; [intros p E; congruence|intros e E; congruence|exists []; now rewrite app_nil_r].
   - (* Advance *) repeat fstrip.
+  - (* ViaHandle *) repeat fstrip.
   - (* Alloc *) unfold alloc. destruct (next_msgid (last s) (inuse s)); try apply fsext_refl.
     match goal with |- fsext ?s0 (set ops _ ?l) => apply (fsext_app s0 l); reflexivity end.
   - (* Enqueue: only an allocated, not yet queued operation changes *)
